@@ -3,22 +3,60 @@
 package clock
 
 import (
+	"runtime"
+	"sync"
 	"sync/atomic"
 	"time"
 )
 
 var source atomic.Pointer[func() time.Time]
 
-// Now returns the reading of the installed source, or the machine's clock.
+var (
+	local  sync.Map // goroutine id -> func() time.Time
+	nlocal atomic.Int64
+)
+
+// Now returns the reading of the source installed for the calling goroutine, else of the process-wide
+// source, else the machine's clock.
 func Now() time.Time {
+	if nlocal.Load() > 0 {
+		if f, ok := local.Load(goid()); ok {
+			return f.(func() time.Time)()
+		}
+	}
 	if f := source.Load(); f != nil {
 		return (*f)()
 	}
 	return time.Now()
 }
 
-// Install makes f the clock of the code under test until restore is called.
+// Install makes f the clock of the code under test (all goroutines) until restore is called.
 func Install(f func() time.Time) (restore func()) {
 	old := source.Swap(&f)
 	return func() { source.Store(old) }
+}
+
+// InstallLocal makes f the clock of the code under test for calls made by the CALLING goroutine only.
+func InstallLocal(f func() time.Time) (restore func()) {
+	id := goid()
+	local.Store(id, f)
+	nlocal.Add(1)
+	return func() {
+		local.Delete(id)
+		nlocal.Add(-1)
+	}
+}
+
+func goid() int64 {
+	var buf [40]byte
+	n := runtime.Stack(buf[:], false)
+	var id int64
+	for i := len("goroutine "); i < n; i++ {
+		c := buf[i]
+		if c < '0' || c > '9' {
+			break
+		}
+		id = id*10 + int64(c-'0')
+	}
+	return id
 }
